@@ -46,6 +46,9 @@ PROGRAMS = [
     # declared as a typedef (lexed before anything else of this call happens)
     ("first-token-is-the-typedef-name", "T x;"),
     ("first-token-names-an-implicit-int-function", "T() { return 0; }"),
+    # an unmatched '}' that the lexer reads (lookahead) before a name is declared
+    ("stray-rbrace-after-declarator", "int x }"),
+    ("fails-with-two-braces-open", "void f(void) { { int y ]"),
     ("same-literals-and-tails-elsewhere", "long b =\n 10u + 010u; unsigned long c = 10ul; double e = 10.0f + 0x1.0p1f;\nchar *s = \"u\" \"u\"; int w = L'u';"),
 ]
 FILENAMES = ["a.c", "dir/b.h"]
